@@ -33,7 +33,7 @@ def generate(tier, seed):
                         dist["single_fault"] += 1
                 if tier == "quick" and len(cases) > 9000:
                     break
-        for _ in range(60 if tier == "quick" else 1500):
+        for _ in range(60 if tier == "quick" else 10000):
             n = rnd.choice([4, 10, 30])
             script = "p" + "".join(rnd.choice("ppprflh") for _ in range(n * 2))
             steps = list(obs)
